@@ -7,7 +7,7 @@ Require Import WD.Base.Prelude WD.Base.BStr WD.Model.SubEvents WD.Model.Emitter 
 Require Import WD.Gen.MaskTableGen WD.Proofs.MaskTableProofs WD.Proofs.C11Proofs WD.Proofs.ReaderFixProofs
                WD.Proofs.ContractProofs
                WD.Proofs.C11KernelProofs WD.Proofs.C11ReaderProofs WD.Proofs.C11TwinProofs WD.Proofs.C11GroupProofs
-               WD.Proofs.C11SeqProofs.
+               WD.Proofs.C11SeqProofs WD.Proofs.C11InertProofs WD.Proofs.C11LagProofs.
 
 (* equal up to _moved_from_events *)
 Definition req (r r0 : rstate) : Prop := wfp r = wfp r0 /\ pfw r = pfw r0 /\ calls r = calls r0 /\ pend r = pend r0.
@@ -237,6 +237,20 @@ Section Flat.
   Qed.
 End Flat.
 
+(* a non-recursive reader never remembers a candidate and never touches the kernel queue *)
+Lemma read_batch_nr_idle C (Hnr : c_recursive C = false) t b : forall r k acc r' k' out,
+  pend r = None -> read_batch C t (r, k, acc) b = Done (r', k', out) -> pend r' = None /\ k_queue k' = k_queue k.
+Proof.
+  induction b as [|e b IH]; intros r k acc r' k' out Hp H; cbn [read_batch] in H.
+  - inversion H; subst. split; [exact Hp | reflexivity].
+  - destruct (read_one C t (r, k, acc) e) as [[[r1 k1] a1]|] eqn:E1; [|discriminate].
+    rewrite (read_one_body_eq C t r k acc e Hp) in E1.
+    assert (Hp1 : pend r1 = None).
+    { destruct (read_one_body_pend C _ _ _ _ _ _ _ _ E1) as [E|E]; [congruence|].
+      unfold sets_pend in E. rewrite Hnr, andb_false_r in E. discriminate. }
+    apply read_one_body_queue in E1. destruct (IH _ _ _ _ _ _ Hp1 H) as [A B]. split; [exact A | congruence].
+Qed.
+
 (* ------------------------------------------------------------------ the names the kernel reports for moves *)
 (* the source of a rename has a proper base name (true of every path that does not end in "/") *)
 Definition op_ok (o : op) : Prop :=
@@ -301,12 +315,12 @@ Section FlatStep.
   Qed.
 
   Theorem transparent_step_flat full w k k' r r0 o w1 k1 r1 evs :
-    op_ok o -> kw0 WATCHDOG_ALL M' k k' -> k_queue k = [] -> req r r0 -> flat_inv root r ->
+    op_ok o -> kw0 WATCHDOG_ALL M' k k' -> k_queue k = [] -> k_queue k' = [] -> req r r0 -> flat_inv root r ->
     run_one None C full w k r o = Some (w1, k1, r1, evs) ->
     exists k1' r1', run_one F C' full w k' r0 o = Some (w1, k1', r1', filter (acc F) evs) /\
-                    kw0 WATCHDOG_ALL M' k1 k1' /\ k_queue k1 = [] /\ req r1 r1' /\ flat_inv root r1.
+                    kw0 WATCHDOG_ALL M' k1 k1' /\ k_queue k1 = [] /\ k_queue k1' = [] /\ req r1 r1' /\ flat_inv root r1.
   Proof.
-    intros Hop [T Q'] Q R I Hrun. rewrite Q in Q'. symmetry in Q'. unfold run_one in *.
+    intros Hop T Q Q' R I Hrun. unfold run_one in *.
     destruct (apply_op w o) as [w'|]; [|discriminate].
     set (kU := kernel_op k (w_fs w) o) in *. set (kF := kernel_op k' (w_fs w) o).
     assert (Q0 : kq M' k k') by (unfold kq; rewrite Q, Q'; reflexivity).
@@ -325,14 +339,17 @@ Section FlatStep.
                 (fun e He Hk => kept_not_move _ (QS e He) Hk) QN R I Hrd) as [r0' [Hrt [R' [I' Hkk]]]].
     cbn [filter] in Hrt.
     assert (K0 : kw0 WATCHDOG_ALL M' (kdrained kU) (kdrained kF)).
-    { split; [|reflexivity]. destruct T1 as [a b c d]. constructor; assumption. }
+    { destruct T1 as [a b c d]. constructor; assumption. }
     pose proof (read_batch_twin C WATCHDOG_ALL M' HM (w_fs w')
                   (filter (fun e => kkeep M' (k_mask e)) (k_queue kU)) r0 (kdrained kU) (kdrained kF) [] K0) as Htw.
     rewrite Hrt in Htw. fold C' in Htw. rewrite Q1.
     destruct (read_batch C' (w_fs w') (r0, kdrained kF, []) (filter (fun e => kkeep M' (k_mask e)) (k_queue kU)))
-      as [[[r2 k2] raws2]|]; [|contradiction].
+      as [[[r2 k2] raws2]|] eqn:HrdF; [|contradiction].
     destruct Htw as [H1 [H2 H3]]. cbn [fst snd] in *. subst r2 raws2.
-    exists k2, r0'. split; [|split; [exact H3 | split; [subst kk; reflexivity | split; assumption]]]. f_equal. f_equal.
+    assert (QF : k_queue k2 = []).
+    { assert (Hp0 : pend r0 = None) by (destruct R as [_ [_ [_ E]]], I as [_ [_ [_ E']]]; congruence).
+      destruct (read_batch_nr_idle C' Hnr _ _ _ _ _ _ _ _ Hp0 HrdF) as [_ E]. exact E. }
+    exists k2, r0'. split; [|split; [exact H3 | split; [subst kk; reflexivity | split; [exact QF | split; assumption]]]]. f_equal. f_equal.
     unfold C'. rewrite group_batch_with_mask. cbn [with_mask c_recursive c_root].
     assert (Hsh : Forall (fun x => kshaped (r_mask x)) raws).
     { destruct (read_batch_masks _ _ _ _ _ _ _ _ _ Hrd) as [new [E Hn]]. cbn [app] in E. subst new.
@@ -343,19 +360,19 @@ Section FlatStep.
 
   Theorem transparent_seq_flat full ops : Forall op_ok ops ->
     forall w k k' r r0 evs,
-      kw0 WATCHDOG_ALL M' k k' -> k_queue k = [] -> req r r0 -> flat_inv root r ->
+      kw0 WATCHDOG_ALL M' k k' -> k_queue k = [] -> k_queue k' = [] -> req r r0 -> flat_inv root r ->
       run_seq None C full w k r ops = Some evs ->
       run_seq F C' full w k' r0 ops = Some (filter (acc F) evs).
   Proof.
-    induction 1 as [|o ops Ho Hops IH]; intros w k k' r r0 evs K Q R I H; cbn [run_seq] in *.
+    induction 1 as [|o ops Ho Hops IH]; intros w k k' r r0 evs K Q Q' R I H; cbn [run_seq] in *.
     - inversion H; subst. reflexivity.
     - destruct (apply_op w o) eqn:Ea; [|eapply IH; eassumption].
       destruct (run_one None C full w k r o) as [[[[w1 k1] r1] e1]|] eqn:E1; [|discriminate].
-      destruct (transparent_step_flat full w k k' r r0 o w1 k1 r1 e1 Ho K Q R I E1) as [k1' [r1' [E2 [K1 [Q1 [R1 I1]]]]]].
+      destruct (transparent_step_flat full w k k' r r0 o w1 k1 r1 e1 Ho K Q Q' R I E1) as [k1' [r1' [E2 [K1 [Q1 [Q1' [R1 I1]]]]]]].
       rewrite E2.
       destruct (run_seq None C full w1 k1 r1 ops) as [e2|] eqn:E3; [|discriminate].
       cbn [option_map] in H. inversion H; subst evs.
-      rewrite (IH w1 k1 k1' r1 r1' e2 K1 Q1 R1 I1 E3). cbn [option_map]. now rewrite filter_app.
+      rewrite (IH w1 k1 k1' r1 r1' e2 K1 Q1 Q1' R1 I1 E3). cbn [option_map]. now rewrite filter_app.
   Qed.
 
   Lemma construct_flat t r k : construct C kinit t = Some (r, k) -> flat_inv root r.
@@ -378,9 +395,10 @@ Section FlatStep.
     unfold run_from. intros Hops H.
     pose proof (construct_twin C WATCHDOG_ALL M' HM (w_fs w)) as T. fold C' in T.
     destruct (construct C kinit (w_fs w)) as [[r k]|] eqn:Ec; [|discriminate].
-    destruct (construct C' kinit (w_fs w)) as [[r' k']|]; [|contradiction].
+    destruct (construct C' kinit (w_fs w)) as [[r' k']|] eqn:Ec'; [|contradiction].
     destruct T as [<- K]. eapply transparent_seq_flat; try eassumption.
     - eapply construct_queue. exact Ec.
+    - eapply construct_queue. exact Ec'.
     - repeat split; reflexivity.
     - eapply construct_flat. exact Ec.
   Qed.
@@ -398,19 +416,6 @@ Section NR.
     unfold sets_pend at 1. rewrite Hnr, andb_false_r. exact IH.
   Qed.
 
-  Lemma read_batch_nr_idle t b : forall r k acc r' k' out,
-    pend r = None -> read_batch C t (r, k, acc) b = Done (r', k', out) -> pend r' = None /\ k_queue k' = k_queue k.
-  Proof.
-    induction b as [|e b IH]; intros r k acc r' k' out Hp H; cbn [read_batch] in H.
-    - inversion H; subst. split; [exact Hp | reflexivity].
-    - destruct (read_one C t (r, k, acc) e) as [[[r1 k1] a1]|] eqn:E1; [|discriminate].
-      rewrite (read_one_body_eq C t r k acc e Hp) in E1.
-      assert (Hp1 : pend r1 = None).
-      { destruct (read_one_body_pend C _ _ _ _ _ _ _ _ E1) as [E|E]; [congruence|].
-        unfold sets_pend in E. rewrite Hnr, andb_false_r in E. discriminate. }
-      apply read_one_body_queue in E1. destruct (IH _ _ _ _ _ _ Hp1 H) as [A B]. split; [exact A | congruence].
-  Qed.
-
   Lemma regular_nr full ops : forall w k r,
     pend r = None -> k_queue k = [] -> regular F C full w k r ops.
   Proof.
@@ -422,7 +427,7 @@ Section NR.
     - unfold run_one. rewrite Ea.
       destruct (read_batch C (w_fs w') (r, kdrained (kernel_op k (w_fs w) o), []) (k_queue (kernel_op k (w_fs w) o)))
         as [[[r1 k1] raws]|] eqn:Hrd; [|exact I].
-      destruct (read_batch_nr_idle _ _ _ _ _ _ _ _ Hp Hrd) as [A B]. apply IH; assumption.
+      destruct (read_batch_nr_idle C Hnr _ _ _ _ _ _ _ _ Hp Hrd) as [A B]. apply IH; assumption.
   Qed.
 
   Lemma regular_from_nr full w ops : regular_from F C full w ops.
@@ -435,19 +440,77 @@ Section NR.
   Qed.
 End NR.
 
-(* ------------------------------------------------------------------ every filter, both kinds of watch *)
-(* For a recursive watch the unfiltered run has to be [regular] (see C11SeqProofs.regular_step); a non-recursive watch
-   always is. *)
-Theorem transparent_from_all F C full :
-  c_mask C = WATCHDOG_ALL -> c_root C <> [] -> last_is_sep (c_root C) = false ->
-  forall w ops evs, Forall op_ok ops ->
-    (c_recursive C = true -> regular_from F C full w ops) ->
+(* ------------------------------------------------------------------ the pinned reader is always regular *)
+Section Pinned.
+  Variable F : option (list evbase).
+  Variable C : cfg.
+  Hypothesis Hoff : c_fix_moveout C = false.
+
+  Lemma read_batch_pinned_queue t b : forall r k acc r' k' out,
+    read_batch C t (r, k, acc) b = Done (r', k', out) -> k_queue k' = k_queue k.
+  Proof.
+    induction b as [|e b IH]; intros r k acc r' k' out H; cbn [read_batch] in H.
+    - inversion H; subst. reflexivity.
+    - destruct (read_one C t (r, k, acc) e) as [[[r1 k1] a1]|] eqn:E1; [|discriminate].
+      rewrite (read_one_body_off C t r k acc e Hoff) in E1. apply read_one_body_queue in E1.
+      rewrite (IH _ _ _ _ _ _ H). exact E1.
+  Qed.
+
+  Lemma regular_pinned full ops : forall w k r, k_queue k = [] -> regular F C full w k r ops.
+  Proof.
+    induction ops as [|o ops IH]; intros w k r Q; cbn [regular]; [exact I|].
+    destruct (apply_op w o) as [w'|] eqn:Ea; [|apply IH; assumption].
+    split.
+    - split; [rewrite Q; constructor|]. split; [apply kernel_op_nodup; exact Q|].
+      unfold pending_of. rewrite Hoff. cbn [andb]. apply guarded_pinned. exact Hoff.
+    - unfold run_one. rewrite Ea.
+      destruct (read_batch C (w_fs w') (r, kdrained (kernel_op k (w_fs w) o), []) (k_queue (kernel_op k (w_fs w) o)))
+        as [[[r1 k1] raws]|] eqn:Hrd; [|exact I].
+      apply IH. rewrite (read_batch_pinned_queue _ _ _ _ _ _ _ _ Hrd). reflexivity.
+  Qed.
+
+  Lemma regular_from_pinned full w ops : regular_from F C full w ops.
+  Proof.
+    unfold regular_from. destruct (construct C kinit (w_fs w)) as [[r k]|] eqn:Ec; [|exact I].
+    apply regular_pinned. eapply construct_queue. exact Ec.
+  Qed.
+End Pinned.
+
+(* ------------------------------------------------------------------ masks that contain IN_MOVE: no regularity needed *)
+(* [regular_from] is gone: the repaired reader of a recursive watch is handled by the lag bisimulation (C11LagProofs),
+   the pinned reader and the non-recursive watches are regular by construction. *)
+Theorem transparent_from_vis F C full :
+  c_mask C = WATCHDOG_ALL -> visible F (c_recursive C) ->
+  forall w ops evs,
+    (c_recursive C = true -> c_fix_moveout C = true -> tidy_from C full w ops) ->
     run_from None C full w ops = Some evs ->
     run_from F (with_mask C (kmask F (c_recursive C))) full w ops = Some (filter (acc F) evs).
 Proof.
-  intros HM R1 R2 w ops evs Hops Hreg H.
+  intros HM Hvis w ops evs Htidy H.
   destruct (c_recursive C) eqn:Hrec.
-  - rewrite <- Hrec. apply transparent_from; [exact HM | rewrite Hrec; apply visible_recursive | exact (Hreg eq_refl) | exact H].
+  - destruct (c_fix_moveout C) eqn:Hfix.
+    + rewrite <- Hrec. apply (lag_from F C HM); [rewrite Hrec; exact Hvis | exact Hfix | exact (Htidy eq_refl eq_refl) | exact H].
+    + rewrite <- Hrec. apply transparent_from; [exact HM | rewrite Hrec; exact Hvis | apply regular_from_pinned; exact Hfix | exact H].
+  - rewrite <- Hrec. apply transparent_from; [exact HM | rewrite Hrec; exact Hvis | apply regular_from_nr; exact Hrec | exact H].
+Qed.
+
+(* ------------------------------------------------------------------ every filter, both kinds of watch *)
+(* For a recursive watch with the repaired reader the UNFILTERED run has to be tidy at its drained points (C11LagProofs:
+   the reader's tables mention live kernel watches only - a filter-independent, executable well-formedness condition; it
+   is what C02's cover invariant gives at synced states).  Nothing is asked of non-recursive watches or of the pinned
+   reader. *)
+Theorem transparent_from_all F C full :
+  c_mask C = WATCHDOG_ALL -> c_root C <> [] -> last_is_sep (c_root C) = false ->
+  forall w ops evs, Forall op_ok ops ->
+    (c_recursive C = true -> c_fix_moveout C = true -> tidy_from C full w ops) ->
+    run_from None C full w ops = Some evs ->
+    run_from F (with_mask C (kmask F (c_recursive C))) full w ops = Some (filter (acc F) evs).
+Proof.
+  intros HM R1 R2 w ops evs Hops Htidy H.
+  destruct (c_recursive C) eqn:Hrec.
+  - destruct (c_fix_moveout C) eqn:Hfix.
+    + rewrite <- Hrec. apply (lag_from F C HM); [rewrite Hrec; apply visible_recursive | exact Hfix | exact (Htidy eq_refl eq_refl) | exact H].
+    + rewrite <- Hrec. apply transparent_from; [exact HM | rewrite Hrec; apply visible_recursive | apply regular_from_pinned; exact Hfix | exact H].
   - destruct (flag_in IN_MOVED_FROM (kmask F false)) eqn:Hmv.
     + rewrite <- Hrec. apply transparent_from; [exact HM | | apply regular_from_nr; exact Hrec | exact H].
       rewrite Hrec. split; [exact Hmv | discriminate].
